@@ -144,6 +144,9 @@ def decompress_code(codedata):
             length = (codedata[in_i] >> 4) + 2
             # Copy byte by byte: the source may overlap the destination.
             for _ in range(length):
+                if out_i >= code_length:
+                    # The header length ends inside this block.
+                    break
                 out[out_i] = out[out_i - offset]
                 out_i += 1
         in_i += 1
